@@ -130,6 +130,15 @@ fn pure(a: &Args, out: &mut ShardOut) -> Vec<Value> {
                     }
                 };
                 let psk_only = guarded(|| vh::kdf::psk_secret(&cs, &psks)).ok().and_then(|r| r.ok()).unwrap_or_default();
+                // the Welcome AEAD as the library really performs it (key and nonce observed at the provider)
+                let welcome_used = {
+                    let rec = crate::anycrypto::Recorder::new();
+                    rec.enable(&["aead_seal"]);
+                    AnyCrypto::recorded(prov, 0, rec.clone()).suite(suite).and_then(|rcs| {
+                        let _ = guarded(|| vh::kdf::welcome_encrypt(&rcs, &s.joiner, &psks, b"c13 welcome probe"));
+                        rec.take().into_iter().find(|e| e.kind == "aead_seal").map(|e| (hx(&e.a), hx(&e.b)))
+                    })
+                };
                 // secret tree probes
                 let mut tree_probes = vec![];
                 for _ in 0..3 {
@@ -178,7 +187,9 @@ fn pure(a: &Args, out: &mut ShardOut) -> Vec<Value> {
                             "confirmation_key": hx(&s.confirmation_key), "exporter": hx(&s.exporter), "authentication": hx(&s.authentication),
                             "external": hx(&s.external), "membership": hx(&s.membership), "init": hx(&s.init),
                             "sender_data": hx(&s.sender_data), "resumption": hx(&s.resumption), "external_pub": hx(&s.external_pub),
-                            "psk_secret": hx(&psk_only)},
+                            "psk_secret": hx(&psk_only),
+                            "welcome_key_used": welcome_used.as_ref().map(|x| x.0.clone()),
+                            "welcome_nonce_used": welcome_used.as_ref().map(|x| x.1.clone())},
                     "tree_probes": tree_probes,
                     "export": {"label": hx(&label), "context": hx(&ectx), "len": elen, "out": exported.map(|e| hx(&e))},
                     "expand": {"secret": hx(&xsecret), "label": hx(&xlabel), "context": hx(&xctx), "len": xlen,
@@ -260,6 +271,7 @@ impl InSitu {
             }
         }
         let extracts: Vec<Value> = evs.iter().filter(|e| e.kind == "kdf_extract").map(|e| json!([hx(&e.a), hx(&e.b), e.who])).collect();
+        let commit_seals: Vec<Value> = evs.iter().filter(|e| e.kind == "aead_seal").map(|e| json!([hx(&e.a), hx(&e.b)])).collect();
         // export probes
         let mut exports = vec![];
         for (l, c, n) in [(b"verif".to_vec(), b"ctx".to_vec(), 32usize), (w.rng.bytes(5), w.rng.bytes(9), 48)] {
@@ -289,6 +301,7 @@ impl InSitu {
             "suite": w.cfg.suite, "epoch": info.epoch_before + 1, "external": info.external, "has_path": info.has_path,
             "commit": hx(&info.commit_msg.to_bytes().unwrap_or_default()),
             "prev": prev, "views": views, "extracts": extracts, "exports": exports, "seals": seals,
+            "commit_seals": commit_seals, "n_welcomes": info.welcomes.len(),
             "applied_psk_ids": info.applied_psk_ids.iter().map(|p| hx(p)).collect::<Vec<_>>(),
             "psk_table": psk_table, "resumption_table": res_table, "group_id": hx(&w.group_id),
         });
